@@ -41,9 +41,9 @@ RULE = ('one event = one save_xye call (+ load_xye of the result); non-trivial =
         'loaded with >= 1 row and the header is non-empty or the data contains extreme / random-bit doubles, '
         'or the configuration is refused for a reason of the table; distinct by configuration + header + data seed')
 
-CA, CHASH, CLF, CSP, CDIG = 1, 2, 3, 4, 5
+CA, CHASH, CLF, CSP, CDIG, CCR = 1, 2, 3, 4, 5, 6
 UNKNOWN = 8000000
-_SYM = {'#': CHASH, '\n': CLF, ' ': CSP}
+_SYM = {'#': CHASH, '\n': CLF, ' ': CSP, '\r': CCR}
 COORD_NAMES = {0: 'x', 1: 'c1', 2: 'c2', 3: 'c3', 4: 'c4'}    # 0 = dimension-coordinate (dim is 'x')
 
 DISTINGUISHED = [5e-324, -5e-324, 1.7976931348623157e308, -1.7976931348623157e308, 2.2250738585072014e-308,
@@ -278,7 +278,7 @@ def py_decide(cfg):
     return 'write'
 
 
-_PRINTABLE = [chr(c) for c in range(32, 127)] + ['\n']
+_PRINTABLE = [chr(c) for c in range(32, 127)] + ['\n', '\r']
 
 
 def rand_header(rng):
@@ -288,10 +288,10 @@ def rand_header(rng):
     if k == 1:   # lines that look like table rows
         return '\n'.join(' '.join(repr(rng.uniform(-5, 5)) for _ in range(3)) for _ in range(rng.randrange(1, 4)))
     if k == 2:
-        return rng.choice(['', '\n', '\n\n', '#', '# already commented', 'x y e\n1 2 3', '1 2 3', ' 1 2 3\n', 'a\n\n4 5 6\n',
+        return rng.choice(['\r', 'a\r1 2 3', 'x\r\n1 2 3', 'run 7\r\ncomment', '', '\n', '\n\n', '#', '# already commented', 'x y e\n1 2 3', '1 2 3', ' 1 2 3\n', 'a\n\n4 5 6\n',
                            'tof [us]  Y [counts]  E [counts]', '##\n#'])
     if k == 3:
-        return ''.join(rng.choice('a#\n 7') for _ in range(rng.randrange(0, 12)))
+        return ''.join(rng.choice('a#\n 7\r') for _ in range(rng.randrange(0, 12)))
     if k == 4:
         return None
     if k == 5:
@@ -301,7 +301,7 @@ def rand_header(rng):
 
 def run(ctx):
     ctx.rule = RULE
-    ctx.assume('headers are printable ASCII + LF (no CR / form feed); any exception of save_xye counts as refusal')
+    ctx.assume('headers are printable ASCII + LF + CR (no other control characters); CR counts as a line break (universal newlines); any exception of save_xye counts as refusal')
     ctx.assume('"a few units in the last place" = 4 ulp of the supplied variance (DESIGN 3.2); supplied variances are '
                'finite, >= 0 and pairwise more than 16 ulp apart, X / Y values pairwise distinct bit patterns, so the '
                'mapping double -> value-id is unambiguous')
@@ -315,6 +315,7 @@ def run(ctx):
     require_ok(ctx, res, 'Xye model')
     ctx.tlc('textio/Xye.tla', 'Neg_Xye_header.cfg', expect_error=True, workers=4, timeout=300)
     ctx.tlc('textio/Xye.tla', 'Neg_Xye_lossy.cfg', expect_error=True, workers=4, timeout=300)
+    ctx.tlc('textio/Xye.tla', 'Neg_Xye_cr.cfg', expect_error=True, workers=4, timeout=300)
 
     # ---- 2. conformance
     events, metas = [], {}
@@ -340,7 +341,7 @@ def run(ctx):
     ntable = tid
     # (b) every header of the model x 1..MaxRows rows x writable coordinate choices
     maxh = 4 if th else 3
-    hdrs = [''.join(p) for k in range(maxh + 1) for p in itertools.product('a#\n 7', repeat=k)] + [None]
+    hdrs = [''.join(p) for k in range(maxh + 1) for p in itertools.product('a#\n 7\r', repeat=k)] + [None]
     shapes = [([2], -1), ([0, 1], -1), ([0, 1], 1)]
     for hi, h in enumerate(hdrs):
         for n in range(1, maxh + 1):
@@ -385,6 +386,7 @@ def run(ctx):
                   f'coord argument {"given" if cfg["arg"] != -1 else "omitted"})'
         else:
             hk = 'generated header' if m['header'] is None else 'empty header' if m['header'] == '' else \
+                 'header containing CR' if '\r' in m['header'] else \
                  'multi-line header' if '\n' in m['header'] else 'single-line header'
             nr = '1 row' if cfg['nrows'] == 1 else 'several rows'
             ev = events[rtid]
